@@ -246,10 +246,19 @@ func runHistory(r *vf.Run, tag string, seed uint64, L int) {
 	log := firingLog
 	nKill := 8
 	if vf.Thorough() {
-		nKill = 48
+		nKill = 32
 	}
 	krng := vf.NewRNG(seed ^ 0xdead)
 	self, _ := os.Executable()
+	type kill struct {
+		k   int
+		f   snap
+		dir string
+		out []byte
+		err error
+		ws  syscall.WaitStatus
+	}
+	var kills []*kill
 	for i := 0; i < nKill; i++ {
 		k := 1 + krng.Intn(len(log))
 		f := log[k-1]
@@ -257,20 +266,29 @@ func runHistory(r *vf.Run, tag string, seed uint64, L int) {
 			i--
 			continue
 		}
-		d := filepath.Join(scratch, fmt.Sprintf("kill-%s-%d", tag, k))
-		os.RemoveAll(d)
+		kills = append(kills, &kill{k: k, f: f, dir: filepath.Join(scratch, fmt.Sprintf("kill-%s-%d-%d", tag, k, i))})
+	}
+	// the children are independent OS processes with their own directories: run them 8 at a time; the
+	// directories they leave are recovered one after the other (the crash-point hook is process-global)
+	vf.Parallel(len(kills), 8, func(i int) {
+		kl := kills[i]
+		os.RemoveAll(kl.dir)
 		cmd := exec.Command(self)
-		cmd.Env = append(os.Environ(), "VERIF_C01_CHILD="+d, "VERIF_C01_KILL="+strconv.Itoa(k), "VERIF_C01_L="+strconv.Itoa(L),
+		cmd.Env = append(os.Environ(), "VERIF_C01_CHILD="+kl.dir, "VERIF_C01_KILL="+strconv.Itoa(kl.k), "VERIF_C01_L="+strconv.Itoa(L),
 			"VERIF_C01_SEED="+strconv.FormatUint(seed, 10), "VERIF_C01_TAG="+tag)
-		out, err := cmd.CombinedOutput()
-		ws, _ := cmd.ProcessState.Sys().(syscall.WaitStatus)
-		if err == nil || !ws.Signaled() || ws.Signal() != syscall.SIGKILL {
-			r.Inconclusive(fmt.Sprintf("sigkill child k=%d did not die by SIGKILL: err=%v out=%s", k, err, string(out)))
-			os.RemoveAll(d)
+		kl.out, kl.err = cmd.CombinedOutput()
+		if cmd.ProcessState != nil {
+			kl.ws, _ = cmd.ProcessState.Sys().(syscall.WaitStatus)
+		}
+	})
+	for _, kl := range kills {
+		if kl.err == nil || !kl.ws.Signaled() || kl.ws.Signal() != syscall.SIGKILL {
+			r.Inconclusive(fmt.Sprintf("sigkill child k=%d did not die by SIGKILL: err=%v out=%s", kl.k, kl.err, string(kl.out)))
+			os.RemoveAll(kl.dir)
 			continue
 		}
 		r.Count("real_sigkill")
-		checkRecovery(r, h, bk, snap{point: f.point, height: f.height, dir: d}, "sigkill", false)
+		checkRecovery(r, h, bk, snap{point: kl.f.point, height: kl.f.height, dir: kl.dir}, "sigkill", false)
 	}
 }
 
